@@ -138,6 +138,54 @@ func generateInto(text, dir string) error {
 	})
 }
 
+// sameParse: the schema is parsed once and that one object is generated from three times (a generator, a second
+// generator, and the second generator again): what generating does to the parsed schema must not show in the next output.
+func sameParse(text string, first map[string][]byte) error {
+	return safely(func() error {
+		sch, err := tlparser.ParseSchema(text)
+		if err != nil {
+			return fmt.Errorf("parse: %v", err)
+		}
+		check := func(dir, how string) error {
+			for _, f := range genFiles {
+				b, _ := os.ReadFile(filepath.Join(dir, f))
+				if !bytes.Equal(b, first[f]) {
+					return fmt.Errorf("%s differs from a generation of the freshly parsed text (%s: %d vs %d bytes)", f, how, len(b), len(first[f]))
+				}
+			}
+			return nil
+		}
+		d0, _ := os.MkdirTemp("", "verif-c14-same-")
+		defer os.RemoveAll(d0)
+		d1, _ := os.MkdirTemp("", "verif-c14-same-")
+		defer os.RemoveAll(d1)
+		g0, err := gen.NewGenerator(sch, "license header", d0)
+		if err != nil {
+			return err
+		}
+		if err := g0.Generate(); err != nil {
+			return fmt.Errorf("generation from a parsed schema fails: %v", err)
+		}
+		if err := check(d0, "first generation from the parsed schema"); err != nil {
+			return err
+		}
+		g1, err := gen.NewGenerator(sch, "license header", d1)
+		if err != nil {
+			return fmt.Errorf("a second generator on the same parsed schema: %v", err)
+		}
+		if err := g1.Generate(); err != nil {
+			return fmt.Errorf("a second generator on the same parsed schema fails: %v", err)
+		}
+		if err := check(d1, "a second generator on the same parsed schema"); err != nil {
+			return err
+		}
+		if err := g1.Generate(); err != nil {
+			return fmt.Errorf("the same generator run a second time fails: %v", err)
+		}
+		return check(d1, "the same generator run a second time")
+	})
+}
+
 // oracle 2: generating twice from the same schema gives byte-identical files.
 func deterministic(text, dir string) error {
 	if err := generateInto(text, dir); err != nil {
@@ -178,7 +226,7 @@ func deterministic(text, dir string) error {
 			return err
 		}
 	}
-	return nil
+	return sameParse(text, first)
 }
 
 const clientStub = `package telegram
